@@ -141,7 +141,7 @@ def opNames : List (String × List String) := [
   ("write_bytes", ["write_bytes"]), ("write_buffer", ["write_bytes"]), ("stat", ["stat"]),
   ("get_dir", ["stat"]), ("rename", ["rename", "file_size"]), ("link", ["rename", "file_size"]),
   ("cp", ["cp"]), ("save_object", ["save_object"]), ("restore_object", ["restore_object"]),
-  ("dumpallobj", ["dumpallobj"]), ("dump_prog", ["dumpallobj"])]
+  ("dumpallobj", ["dumpallobj"]), ("dump_prog", ["dumpallobj"]), ("ed", ["ed_start"])]
 
 /-- efuns whose file access is NOT mediated by valid_read/valid_write (compiler: load_object, #include,
     inherit): only confinement is required of them -/
@@ -174,6 +174,13 @@ def approvalOf (w : Bool) (v : Verdict) (path : CStr) : Option Approval :=
   | some a =>
     let r := stripOneSlash a
     some { w := w, path := if r = [] then dot else r }
+
+/-- approval `a` licenses the libc call `fn` (modifying iff `w`) on path `p`: the approved path is legal,
+    `p` is that path (or directly derived from it), and the kind fits — a modifying call needs a
+    `valid_write` approval, a reading call a `valid_read` one; `stat` (existence / type probe) is also
+    accepted on a path approved for writing. -/
+def okBy (fn : String) (w : Bool) (p : CStr) (a : Approval) : Bool :=
+  specLegal a.path && covers a.path p && (if w then a.w else (!a.w || fn == "stat"))
 
 def judgeStep (s : JState) (e : Ev) : JState :=
   match e with
@@ -214,9 +221,7 @@ def judgeStep (s : JState) (e : Ev) : JState :=
       else s
     if compileCalls.contains s.efun then s
     else
-      let okBy (a : Approval) : Bool :=
-        specLegal a.path && covers a.path p && (if w then a.w else (!a.w || fn == "stat"))
-      if s.approvals.any okBy then s
+      if s.approvals.any (okBy fn w p) then s
       else s.flag "fs-unmediated" s!"{s.efun}: {fn} {if w then "w" else "r"} {showP p} without a matching approval"
   | .note _ => s
 
